@@ -794,6 +794,9 @@ type c02Seq struct {
 	init  map[string]c02Val
 	final map[string]c02Val
 	salt  uint64
+	// KeyBox: the index variable ix is a struct c02K{A int} and the map is keyed by c02K, so that
+	// the key operand m[ix] is a value gomacro keeps boxed (local worlds only)
+	KeyBox bool
 }
 
 func newC02Seq(rec *c02SeqRec, kind, world string, seed int64) (*c02Seq, error) {
@@ -814,6 +817,7 @@ func newC02Seq(rec *c02SeqRec, kind, world string, seed int64) (*c02Seq, error) 
 	}
 	b, _ := json.Marshal(rec.Prog)
 	s.salt = c02Hash(seed, kind, world, string(b))
+	s.KeyBox = world != "top" && (s.salt>>40)&1 == 1
 	return s, nil
 }
 
@@ -844,9 +848,20 @@ func (s *c02Seq) placeText(p c02Place) string {
 		case "e":
 			return fmt.Sprintf("evi(%d)", p.I)
 		case "x":
-			return "evi(" + s.name("ix") + ")"
+			return "evi(" + s.ixInt() + ")"
+		case "v":
+			return s.ixInt()
 		}
 		return strconv.Itoa(p.I)
+	}
+	key := func() string {
+		if !s.KeyBox {
+			return io()
+		}
+		if p.F == "v" {
+			return s.name("ix") // the variable itself is the key operand
+		}
+		return "c02K{" + io() + "}"
 	}
 	switch p.Sh {
 	case "var":
@@ -858,13 +873,21 @@ func (s *c02Seq) placeText(p c02Place) string {
 	case "sl":
 		return s.name("s") + "[" + io() + "]"
 	case "map":
-		return s.name("m") + "[" + io() + "]"
+		return s.name("m") + "[" + key() + "]"
 	case "fld":
 		return s.name("st") + "." + strings.ToUpper(p.N)
 	case "ix":
-		return s.name("ix")
+		return s.ixInt() // (with KeyBox the field of the struct variable: it is changed in place)
 	}
 	return "_"
+}
+
+// ixInt: the int value of the index variable
+func (s *c02Seq) ixInt() string {
+	if s.KeyBox {
+		return s.name("ix") + ".A"
+	}
+	return s.name("ix")
 }
 
 // untyped: is the constant right-hand side number i of statement j rendered as an untyped
@@ -893,7 +916,7 @@ func (s *c02Seq) rhsText(r c02Rhs, untyped bool) (string, error) {
 	case "int":
 		return strconv.Itoa(r.N), nil
 	case "ixr":
-		return s.name("ix"), nil
+		return s.ixInt(), nil
 	}
 	return "", fmt.Errorf("right-hand side %q", r.F)
 }
@@ -927,9 +950,10 @@ func (s *c02Seq) stmtText(st c02Stmt, j int) (string, error) {
 
 func (s *c02Seq) stateArgs() string {
 	var parts []string
-	for _, l := range []string{"v0", "v1", "v2", "v3", "g", "gb", "t", "a", "s", "m", "st", "ix"} {
+	for _, l := range []string{"v0", "v1", "v2", "v3", "g", "gb", "t", "a", "s", "m", "st"} {
 		parts = append(parts, s.name(l))
 	}
+	parts = append(parts, s.ixInt())
 	return strings.Join(parts, ", ")
 }
 
@@ -951,12 +975,21 @@ func (s *c02Seq) render() (c02SeqProg, error) {
 	}
 	lit := func(l string) string { return c02Lit(s.init[l]) }
 	mapLit := "map[int]" + k + "{"
+	ix0 := "0"
+	if s.KeyBox {
+		mapLit = "map[c02K]" + k + "{"
+		ix0 = "c02K{0}"
+	}
 	for i, l := range []string{"m0", "m1"} {
 		if !s.Rec.Ab0[i] {
 			if !strings.HasSuffix(mapLit, "{") {
 				mapLit += ", "
 			}
-			mapLit += fmt.Sprintf("%d: %s", i, lit(l))
+			if s.KeyBox {
+				mapLit += fmt.Sprintf("c02K{%d}: %s", i, lit(l))
+			} else {
+				mapLit += fmt.Sprintf("%d: %s", i, lit(l))
+			}
 		}
 	}
 	mapLit += "}"
@@ -979,15 +1012,15 @@ func (s *c02Seq) render() (c02SeqProg, error) {
 		for _, l := range []string{"v0", "v1", "v2", "v3", "t"} {
 			decl += fmt.Sprintf("var %s %s = %s; ", l, k, lit(l))
 		}
-		decl += fmt.Sprintf("p := &t; a := %s; s := %s; m := %s; st := %s; ix := 0; _ = p; ", arrLit, slLit, mapLit, stLit)
+		decl += fmt.Sprintf("p := &t; a := %s; s := %s; m := %s; st := %s; ix := %s; _ = p; ", arrLit, slLit, mapLit, stLit, ix0)
 		return c02SeqProg{Body: "(func() { " + decl + "defer func() { " + final + " }(); " + body + " })()"}, nil
 	}
 	// nest: v3 and the containers three levels above the statements, v2 two, v1 one, v0 none
 	inner := fmt.Sprintf("var v0 %s = %s; defer func() { %s }(); %s", k, lit("v0"), final, body)
 	l1 := fmt.Sprintf("var v1 %s = %s; func() { %s }()", k, lit("v1"), inner)
 	l2 := fmt.Sprintf("var v2 %s = %s; func() { %s }()", k, lit("v2"), l1)
-	l3 := fmt.Sprintf("var v3 %s = %s; var t %s = %s; p := &t; a := %s; s := %s; m := %s; st := %s; ix := 0; _ = p; func() { %s }()",
-		k, lit("v3"), k, lit("t"), arrLit, slLit, mapLit, stLit, l2)
+	l3 := fmt.Sprintf("var v3 %s = %s; var t %s = %s; p := &t; a := %s; s := %s; m := %s; st := %s; ix := %s; _ = p; func() { %s }()",
+		k, lit("v3"), k, lit("t"), arrLit, slLit, mapLit, stLit, ix0, l2)
 	return c02SeqProg{Body: "(func() { " + l3 + " })()"}, nil
 }
 
@@ -1001,7 +1034,11 @@ func (s *c02Seq) expectedEvents() []string {
 	var m []string
 	for i, l := range []string{"m0", "m1"} {
 		if !s.Rec.Ab[i] {
-			m = append(m, fmt.Sprintf("int:%d=>%s", i, f(l)))
+			if s.KeyBox {
+				m = append(m, fmt.Sprintf("{int:%d}=>%s", i, f(l)))
+			} else {
+				m = append(m, fmt.Sprintf("int:%d=>%s", i, f(l)))
+			}
 		}
 	}
 	parts := []string{f("v0"), f("v1"), f("v2"), f("v3"), f("g"), f("gb"), f("t"),
